@@ -471,6 +471,184 @@ def lemmas():
     ]
 
 
+# ---------------------------------------------------------------------------
+# The round-trip LEMMA proper: the composition  to_swc -> parse_swc -> reset_index_ -> Tree.from_data_frame  stated over the four
+# CONTRACTS (their clause functions are fetched from the registry and evaluated, nothing is re-typed here), for an arbitrary
+# well-formed tree of symbolic size and an arbitrary offset >= 0.  It is run as a small ghost program on a real engine: `assume`
+# collects hypotheses, `prove` emits the lemma obligations.  A change of any of the four contracts that breaks the composition
+# (another format spec, another shift, another re-basing, another column wiring) makes a lemma obligation fail or the lemma
+# impossible to state (machinery error).  What links the writer's TEXT to the reader's TOKENS is assumed and listed:
+STR_OF_INT = z3.Function("text_of_str(int)", z3.IntSort(), z3.IntSort())
+FMT4 = z3.Function("text_of_format(real,'.4f')", z3.RealSort(), z3.IntSort())
+ROUND4 = z3.Function("round4", z3.RealSort(), z3.RealSort())
+WROW = z3.Function("written_row_line", z3.IntSort(), z3.IntSort())
+
+LEMMA_ASSUMPTIONS = [
+    "round-trip lemma, assumed (CPython number formatting): float_of_text(fmt4(v)) = round4(v) and the conversion succeeds, for every real v "
+    "(round4 uninterpreted: 'v rounded to the four decimals the format carries'); int_of_text(str(k)) = k and succeeds, for every integer k",
+    "round-trip lemma, assumed (whitespace token lemma, DESIGN 3/C01): group c of the row pattern on a written row line is the text of its c-th cell",
+    "round-trip lemma, assumed (row structure of the written text): the row lines of the text to_swc yields are exactly its n node lines, in node "
+    "order - the '#' lines (comments, column header) are no rows (regex-language fact plus a counting induction; exercised by the bounded stand-in)",
+]
+
+
+def _text_of_atom(a):
+    """the text (abstract id) of one cell atom: only str(int) and format(real, '.4f') have assumed read-back facts"""
+    tag_, spec, val = a
+    if tag_ != "fmt":
+        raise KeyError(f"cell atom {a!r}")
+    k = kind_of(val)
+    if spec == "str" and k == "int":
+        return STR_OF_INT(to_z3(val, "int"))
+    if spec == ".4f" and k == "real":
+        return FMT4(to_z3(val, "real"))
+    return z3.Function(f"text_of_format({k},{spec!r})", z3.IntSort() if k == "int" else z3.RealSort(), z3.IntSort())(to_z3(val, k))
+
+
+def _clause(contract, label, where="ensures"):
+    from pyvc.spec import split_label
+
+    for j, cl in enumerate(getattr(contract, where)):
+        lab, body = split_label(cl, f"{where}{j}")
+        if lab == label:
+            return body
+    raise KeyError(f"{contract.key}: no {where} clause labelled {label!r} (the round-trip lemma is stated over it)")
+
+
+def roundtrip_lemma(tamper=None):
+    """`tamper(c_write, c_parse, c_reset, c_build)` may edit the four contracts first: used only by tools/lemma_selftest_C01.py to show
+    that a broken contract breaks the lemma (the check itself calls it without)"""
+    import importlib
+
+    from pyvc.npmodels import DFrame
+    from pyvc.spec import eval_clause
+    from pyvc.values import Obj, PDict
+    from pyvc.verify import Verifier
+    from swcgeom.core.swc_utils import get_names, get_types
+    from swcgeom.core.tree import Tree
+
+    saved = dict(M.EXTRA_MODELS)  # contracts/C02.py installs process-wide models when imported: keep them out of this process
+    try:
+        C02, C18 = importlib.import_module("contracts.C02"), importlib.import_module("contracts.C18")
+        R = Registry()
+        C18.register(R)
+        C02.register(R)
+        register(R)
+    finally:
+        M.EXTRA_MODELS.clear()
+        M.EXTRA_MODELS.update(saved)
+    pick = lambda key, prop: next(c for c in R.alts[key] if c.prop == prop)
+    c_write, c_parse = pick(f"{IO}:to_swc", "C01"), pick(f"{IO}:parse_swc", "C02")
+    c_reset, c_build = pick("swcgeom/core/swc_utils/normalizer.py:reset_index_", "C18"), pick(f"{TREE}:Tree.from_data_frame", "C01")
+    if tamper is not None:
+        tamper(c_write, c_parse, c_reset, c_build)
+    names = get_names()
+    NC = names.cols()
+    E = Verifier(R, "C01")
+    E.variant = ""
+    ev = lambda body, vars_, old=None, globs=None: eval_clause(E, body, vars_, globs or {}, old_vars=old, extra={})
+
+    # ---- an arbitrary well-formed tree, an arbitrary offset
+    n, off = z3.Int("n_nodes"), Sym(z3.Int("id_offset"), "int")
+    t = {c: SArr(z3.Const(f"tree_{c}", z3.ArraySort(z3.IntSort(), z3.IntSort() if c in INT_COLS else z3.RealSort())), n, "int" if c in INT_COLS else "real", name=c)
+         for c in NC}
+    i = z3.Int("i")
+    E.assume(n >= 1)
+    E.assume(z3.ForAll([i], z3.Implies(z3.And(i >= 0, i < n), t["id"].get(i).z == i)))           # WFtree: ids are positions,
+    E.assume(t["pid"].get(0).z == -1)                                                              # node 0 is the root,
+    E.assume(z3.ForAll([i], z3.Implies(z3.And(i > 0, i < n), z3.And(t["pid"].get(i).z >= 0, t["pid"].get(i).z < n))))  # every other node has a parent
+    E.assume(off.z >= 0)
+    wv = dict(get_ndata=Callback("get_ndata", None), g_cols=t, g_n=Sym(n, "int"), given_extra=None, given_comments=None, id_offset=off,
+              extra_cols=None, comments=None, names=None)
+    for j, cl in enumerate(c_write.requires):  # the writer's preconditions hold for such a tree
+        from pyvc.spec import split_label
+
+        lab, body = split_label(cl, f"pre{j}")
+        E.prove(f"lemma/roundtrip/writer-precondition/{lab}", ev(body, wv), "lemma")
+
+    # ---- 1. to_swc's contract: line k is the cells of node k in column order (per-iteration `yields` clause, arbitrary k)
+    (ylab, row_yield), = c_write.loops[1]["yields"]
+    k = z3.Int("k")
+    cellv = {c: z3.Function(f"written_{c}", z3.IntSort(), z3.IntSort() if c in INT_COLS else z3.RealSort()) for c in NC}
+
+    def written_line(kk):
+        # the PROPERTY's picture of a row: str() of the three integer columns, four decimals for the floating ones, blank-separated
+        parts = []
+        for j, c in enumerate(NC):
+            if j:
+                parts.append(" ")
+            parts.append(FmtPiece(Sym(cellv[c](kk), "int" if c in INT_COLS else "real"), "str" if c in INT_COLS else ".4f"))
+        return SStr(tuple(parts) + ("\n",))
+
+    wr = row_yield(E, wv, [written_line(k)], Sym(k, "int"))
+    if wr is False:
+        raise KeyError("to_swc's row clause no longer describes a row of str()/'.4f' cells: the round-trip lemma cannot be stated")
+    E.assume(z3.ForAll([k], z3.Implies(z3.And(k >= 0, k < n), to_z3(wr, "bool"))))
+    cells = [a for a in atoms(written_line(k)) if not isinstance(a, str)]
+    assert len(cells) == 7
+
+    # ---- 2. assumed bridge text -> tokens (LEMMA_ASSUMPTIONS), over C02's spec functions
+    f = z3.Int("written_file")
+    row_tag = C02.tag("search", C02.ref_row_pattern(0))
+    v_, r_ = z3.Int("v"), z3.Real("r")
+    E.assume(z3.ForAll([v_], z3.And(C02.INT_OK(STR_OF_INT(v_)), C02.INT_OF(STR_OF_INT(v_)) == v_)))
+    E.assume(z3.ForAll([r_], z3.And(C02.FLT_OK(FMT4(r_)), C02.FLT_OF(FMT4(r_)) == ROUND4(r_))))
+    E.assume(z3.ForAll([k], z3.Implies(z3.And(k >= 0, k < n), z3.And(*[C02.GRP(row_tag, WROW(k), c + 1) == _text_of_atom(a) for c, a in enumerate(cells)]))))
+    E.assume(C02.RCNT(f, C02.NL(f)) == n)
+    E.assume(z3.ForAll([k], z3.Implies(z3.And(k >= 0, k < n), C02.LINE(f, C02.RLINE(f, k)) == WROW(k))))
+    E.prove("lemma/roundtrip/every-written-row-converts(no-ValueError-from-the-reader)",
+            z3.ForAll([k], z3.Implies(z3.And(k >= 0, k < n), C02.conv_ok(0, C02.LINE(f, C02.RLINE(f, k))))), "lemma")
+
+    # ---- 3. parse_swc's contract on that file
+    kinds = {c: ("int" if c in INT_COLS else "real") for c in NC}
+    d0 = DFrame({c: SArr.fresh(kinds[c], z3.Int("parsed_rows"), name=f"parsed_{c}") for c in NC}, z3.Int("parsed_rows"))
+    E.assume(d0.n >= 0)
+    pv = dict(fname=Opaque(f, {}), names=names, extra_cols=None, encoding="utf-8", result=(d0, PList.fresh("ref", name="comments")))
+    for lab in ("one-table-entry-per-row-line", "every-field-is-the-conversion-of-its-group-in-file-order"):
+        E.assume(ev(_clause(c_parse, lab), pv, dict(pv)))
+
+    # ---- 4. reset_index_'s contract (C18) on the parsed table: precondition proved, postconditions assumed
+    for j, cl in enumerate(c_reset.requires):
+        from pyvc.spec import split_label
+
+        lab, body = split_label(cl, f"pre{j}")
+        E.prove(f"lemma/roundtrip/reset_index_-precondition-on-the-parsed-table/{lab}", ev(body, dict(df=d0, names=None)), "lemma")
+    d1 = DFrame({c: SArr.fresh(kinds[c], d0.n, name=f"rebased_{c}") for c in NC}, d0.n)
+    for j, cl in enumerate(c_reset.ensures):
+        from pyvc.spec import split_label
+
+        lab, body = split_label(cl, f"post{j}")
+        E.assume(ev(body, dict(df=d1, names=None, result=None), dict(df=d0, names=None)))
+
+    # ---- 5. Tree.from_data_frame's contract on the re-based table
+    m = z3.Int("read_back_nodes")
+    back = {c: SArr.fresh(kinds[c], m, name=f"read_back_{c}") for c in NC}
+    tree2 = Obj(Tree, dict(ndata=PDict(dict(back)), names=names, types=get_types(), source="", comments=PList([])))
+    bv = dict(df=d1, source="", comments=None, names=None, result=tree2, g_extra=[])
+    E.assume(ev(_clause(c_build, "n-nodes-is-the-number-of-rows-and-every-SWC-column-holds-the-frame's-values-in-row-order"), bv, dict(bv)))
+
+    # ---- the round trip (PROPERTY C01): same number of nodes, ids 0..n-1, same parents, same types, floats rounded to four decimals
+    hyps_for_cover = list(E.pc)
+    E.prove("lemma/roundtrip/same-number-of-nodes", m == n, "lemma")
+    node = z3.Int("node")
+    E.assume(z3.And(node >= 0, node < n))
+    E.prove("lemma/roundtrip/id-is-the-node-index(arange)", back["id"].get(node).z == node, "lemma")
+    E.prove("lemma/roundtrip/parent-is-the-original-parent(root-stays-minus-one)", back["pid"].get(node).z == t["pid"].get(node).z, "lemma")
+    E.prove("lemma/roundtrip/type-is-the-original-type", back["type"].get(node).z == t["type"].get(node).z, "lemma")
+    for c in FLT_COLS:
+        E.prove(f"lemma/roundtrip/{c}-is-the-original-formatted-with-.4f-and-parsed-back(round4)", back[c].get(node).z == ROUND4(t[c].get(node).z), "lemma")
+    out = [(o.name.split("/lemma/", 1)[1], o.hyps, o.goal) for o in E.obligs]
+    out.append(("cover:roundtrip/hypotheses-are-satisfiable", hyps_for_cover, z3.BoolVal(False)))
+    return out
+
+
+_lemmas_arith = lemmas
+
+
+def lemmas():  # noqa: F811
+    return _lemmas_arith() + roundtrip_lemma()
+
+
 # ===========================================================================
 # column -> array construction: Tree.__init__, DictSWC.__init__, Tree.from_data_frame
 TREE = "swcgeom/core/tree.py"
